@@ -427,6 +427,76 @@ def r13_collectors(chk):
 
 
 
+def r14_record_completeness(chk, rule='C03.R14', fields=None):
+    """every clause component that has a field is stored, and only its own presence decides whether it is"""
+    model = chk.model
+    clauses = ir.clause_model(model)
+    mod = model.mod(INTER)
+    roles = clause_roles(model)
+    from rules.C15 import mentions_text_switch, GATED, ALSO_GATED
+    chk.doc(rule, 'per clause handler: each component the grammar supplies that has a record field (status, units, '
+                  'maxaccess, description, reference, revisions, syntax, default, oid, objects, ...) is stored under '
+                  'that field; the store is conditional on nothing but the truthiness of that same component '
+                  '(positive branch, and-chains only) and, for the descriptive texts, the text switch')
+    n = 0
+    for tag, c in sorted(clauses.items()):
+        rl = roles.get(tag)
+        if rl is None or c.unpack is None or len(c.unpack) != len(rl):
+            continue   # reported by R4
+        by_field = {}
+        for s_ in c.stores:
+            if s_.var != c.record_var or not s_.key:
+                continue
+            names = [x.id for x in ast.walk(s_.value) if isinstance(x, ast.Name) and x.id != 'self']
+            pos = None
+            for nm in names:
+                pos = origin_of(c, nm, s_.node.lineno + 1)
+                if pos is not None:
+                    break
+            by_field.setdefault(s_.key[0], []).append((s_, pos))
+        for i, rs in enumerate(rl):
+            want = sorted(f for f, accepted in FIELD_ROLES.items() if rs & set(accepted) and f not in ('nodetype',))
+            if fields:
+                want = [f for f in want if f in fields]
+            if not want or c.unpack[i] is None:
+                continue
+            got = [f for f in want if any(pos == i for s_, pos in by_field.get(f, []))]
+            if 'name' in want and not got:
+                got = ['name'] if any(True for s_, pos in by_field.get('name', [])) else []
+            n += 1
+            chk.ob(rule, 'IntermediateCodeGen.%s/stores %s' % (c.name, '|'.join(want)), bool(got), where(mod, c.fn),
+                   'component %d (%s, local `%s`) is never stored as %s: the declared value is dropped from the '
+                   'record' % (i + 1, '/'.join(sorted(rs)), c.unpack[i], ' or '.join(want)))
+        for f, lst in sorted(by_field.items()):
+            if f not in FIELD_ROLES or f in ('nodetype', 'name') or (fields and f not in fields):
+                continue
+            for s_, pos in lst:
+                if pos is None or len(s_.key) != 1:
+                    continue
+                bad = []
+                for test, in_body in s_.guards:
+                    if not in_body:
+                        bad.append('else-branch of `%s`' % norm(test)[:50])
+                        continue
+                    for cj in ir.conjuncts(test):
+                        if mentions_text_switch(cj):
+                            if isinstance(cj, ast.UnaryOp) or not (f in GATED or f in ALSO_GATED):
+                                bad.append(norm(cj))
+                            continue
+                        core = cj
+                        while isinstance(core, ast.Subscript):
+                            core = core.value
+                        if isinstance(core, ast.Name) and origin_of(c, core.id, s_.node.lineno + 1) == pos:
+                            continue
+                        bad.append(norm(cj)[:60])
+                n += 1
+                chk.ob(rule, 'IntermediateCodeGen.%s/%s-own-guard' % (c.name, f), not bad, where(mod, s_.node),
+                       'the store of %r depends on %s; it may depend only on the presence of the clause component it '
+                       'holds%s' % (f, bad, ' and the text switch' if f in GATED else ''))
+    chk.floor(rule, 60 if not fields else 10, 'components and stores')
+
+
 RULES = [r1_kinds, r2_one_registration, r3_classes, r4_field_provenance, r5_emission, r6_transopers_siblings,
          r7_json_document, r8_nodetype, r9_revision_time, r10_per_module_state, r11_argument_agreement,
-         r12_fields_not_gated_by_text_switch, r13_collectors]
+         r12_fields_not_gated_by_text_switch, r13_collectors,
+         r14_record_completeness]
